@@ -240,6 +240,7 @@ def run(ctx, rep):
                 if not (any(c[2] == "ihr" for c in calls_in(t)) and vcc.param_roots(t, fm) == {2} and "'node'" in repr(t)):
                     rep.violation("C08.decision", "prune_case:key:" + cs.name, "%s is queried with %s, expected the IHR of the unpruned node (data.node.ihr())" % (cs.name, show(t)), cs.where())
             table = {}
+            blind = set()
             for blocks, conds in path_conditions(f):
                 res = None
                 for b in blocks:
@@ -258,7 +259,12 @@ def run(ctx, rep):
                             rv = val
                 if res is not None and lv is not None and rv is not None:
                     table.setdefault((lv, rv), set()).add(res)
+                elif res is not None:
+                    blind.add(res)
             want = {(True, True): {"Neither"}, (False, True): {"Left"}, (True, False): {"Right"}, (False, False): {"Neither"}}
+            if blind:
+                rep.violation("C08.decision", "prune_case:blind", "prune_case can return Hide::%s on a path that has not asked the tracker about both sides of "
+                              "the case: a case executed on one side only is then kept whole (or hidden) whatever the execution did" % "/".join(sorted(blind)), f.where())
             if table == want:
                 rep.ok("C08.decision", "prune_case table", {str(k): sorted(v) for k, v in table.items()})
             else:
